@@ -125,10 +125,14 @@ class C16(Prop):
             v = coords[0]
         elif r < 0.8:
             v = coords[-1]
-        elif r < 0.9:
+        elif r < 0.85:
             v = coords[-1] + Fraction(rng.choice([1, 8, 64]), 8)
-        else:
+        elif r < 0.9:
             v = coords[0] - Fraction(rng.choice([1, 8, 64]), 8)
+        else:
+            # a hair outside / inside an edge or a coordinate: "close to" is not "equal to" (all values dyadic, so exact)
+            eps = Fraction(1, 2 ** rng.choice([20, 30, 40, 45]))
+            v = rng.choice([coords[0] - eps, coords[-1] + eps, coords[0] + eps, coords[-1] - eps, rng.choice(coords) - eps])
         return {"kind": "index", "axis": axis, "v": v, "raise": rng.random() < 0.5}
 
     def _setpos_case(self, rng):
@@ -153,8 +157,11 @@ class C16(Prop):
                 elif r < 0.85:
                     v = rng.choice(cs) + Fraction(1, 4)
                     v = min(v, cs[-1])
-                else:
+                elif r < 0.93:
                     v = cs[-1] + 1 if rng.random() < 0.5 else cs[0] - 1
+                else:
+                    eps = Fraction(1, 2 ** rng.choice([20, 30, 40]))
+                    v = rng.choice([cs[0] - eps, cs[-1] + eps, rng.choice(cs) - eps])
                 query.append(v)
             else:
                 query.append(None)
